@@ -80,13 +80,13 @@ def close(impl, exact, scale, factor=64.0):
 _build_cache = {}
 
 
-def lean_build(extra_env=None):
-    """`lake build` in /verif/lean; returns (ok, log)."""
+def lean_build(targets=(), extra_env=None):
+    """`lake build [targets]` in /verif/lean; returns (ok, log, seconds)."""
     t0 = time.time()
     env = dict(os.environ)
     if extra_env:
         env.update(extra_env)
-    p = subprocess.run(['lake', 'build'], cwd=LEAN, capture_output=True, text=True, env=env)
+    p = subprocess.run(['lake', 'build'] + list(targets), cwd=LEAN, capture_output=True, text=True, env=env)
     log = (p.stdout + p.stderr)[-6000:]
     return p.returncode == 0, log, time.time() - t0
 
@@ -272,9 +272,13 @@ class Check:
         self.count('FAIL ' + signature)
 
     # ---- proof side
-    def proof_side(self, build=True, extra_imports=()):
+    def proof_side(self, build=True, extra_imports=(), targets=None):
+        """build this property's theorem module (and what it imports) from the current sources, grep the Lean tree
+        for forbidden constructs, and audit the axioms of every property theorem"""
         if build:
-            ok, log, dt = lean_build()
+            if targets is None:
+                targets = ['PygyroVerif.Props.' + self.pid] if (LEAN / 'PygyroVerif' / 'Props' / (self.pid + '.lean')).exists() else []
+            ok, log, dt = lean_build(targets)
             self.notes['lake_build_s'] = round(dt, 2)
             if not ok:
                 self.proof_broken.append({'theorem': 'lake build', 'log': log})
